@@ -11,6 +11,7 @@ structure ModSt where
   natoms : Nat := 0
   modelled : Bool := false             -- at least one `M.` object: the model speaks for the whole module
   clockKnown : Bool := true            -- false after loading a state the model does not interpret
+  saved : List (String × Sys Float) := []   -- states saved under a prefix (survive `m.new`)
 
 def setAssoc {β} (l : List (Nat × β)) (k : Nat) (v : β) : List (Nat × β) :=
   (k, v) :: l.filter (·.1 ≠ k)
@@ -25,13 +26,17 @@ def findBias (s : ModSt) (name : String) : Option (Bias Float) :=
 
 def modOps (s : ModSt) (ln : Nat) (t : List String) : Option (ModSt × List String) :=
   match t with
-  | "m.new" :: n :: _ => some ({ natoms := nOfTok n }, [])
+  | "m.new" :: n :: _ => some ({ natoms := nOfTok n, saved := s.saved }, [])
+  | "m.save" :: prefix_ :: _ => some ({ s with saved := (prefix_, s.m) :: s.saved.filter (·.1 != prefix_) }, [])
   | ["m.opt", "it", n] => some ({ s with m := { s.m with clock := { s.m.clock with it := iOfTok n, itRestart := iOfTok n } } }, [])
   | ["m.opt", "tf_same", b] => some ({ s with m := { s.m with tfSame := b != "0" } }, [])
   | ["m.opt", "tfloop", b] => some ({ s with m := { s.m with tfLoop := b != "0" } }, [])
   | "m.opt" :: _ => some (s, [])
   | "m.loadhex" :: _ => some ({ s with clockKnown := false }, [])
-  | "m.load" :: _ => some ({ s with clockKnown := false }, [])
+  | "m.load" :: prefix_ :: _ =>
+    match s.saved.lookup prefix_ with
+    | some sv => some ({ s with m := sysLoad s.m sv }, [out ln "it" (iTok sv.clock.it)])
+    | none => some ({ s with clockKnown := false }, [])
   | ["m.pos", a, _x, _y, z] => some ({ s with posz := setAssoc s.posz (nOfTok a) (fOfTok z) }, [])
   | ["m.tf", a, _x, _y, z] => some ({ s with tfz := setAssoc s.tfz (nOfTok a) (fOfTok z) }, [])
   | "m.step" :: r =>
@@ -96,6 +101,36 @@ def modOps (s : ModSt) (ln : Nat) (t : List String) : Option (ModSt × List Stri
       let (cs, _) := takeF nd r
       some ({ s with m := { s.m with biases := s.m.biases ++ [(name, .harm idx (fOfTok k) cs)] }, modelled := true }, [])
     | _ => none
+  -- M.restr <name> <harmonic|walls|linear> <nd> cvnames.. key=value...   (lists comma-separated, floats as bit patterns)
+  | "M.restr" :: name :: kind :: nd :: r =>
+    let nd := nOfTok nd
+    let idx := s.cvIdx (r.take nd); let kv := r.drop nd
+    let get (k : String) : Option String := (kv.find? (fun t => t.startsWith (k ++ "="))).map (fun t => (t.drop (k.length + 1)).toString)
+    let getF (k : String) (d : Float) : Float := ((get k).map fOfTok).getD d
+    let getI (k : String) (d : Int) : Int := ((get k).map iOfTok).getD d
+    let getL (k : String) : Option (List Float) := (get k).map fun v => ((v.splitOn ",").filter (· ≠ "")).map fOfTok
+    let vs : List (CvSt Float) := getCvs s.m.cvs idx
+    let sched := (getL "sched").getD []
+    let k0 := getF "k" 1.0
+    let p : RParams Float := {
+      kind := if kind == "walls" then .walls else if kind == "linear" then .linear else .harmonic,
+      widths := vs.map (·.width), per := vs.map (·.per), wrapC := vs.map (·.wrapC),
+      centers0 := (getL "centers").getD [], targetCenters := getL "target",
+      chgK := getI "chgk" 0 != 0, startK := getF "startk" k0, targetK := getF "targetk" k0,
+      decoupling := getI "decoupling" 0 != 0, lambdaExp := getF "lexp" 1.0, lambdaSchedule := sched,
+      nsteps := getI "nsteps" 0, nstages := if sched.length > 0 then (sched.length : Int) - 1 else getI "nstages" 0,
+      equil := getI "equil" 0, firstStep := getI "first" s.m.clock.it, outputWork := getI "work" 0 != 0,
+      lowerWalls := getL "lw", upperWalls := getL "uw", lowerK := getF "lk" 1.0, upperK := getF "uk" 1.0 }
+    let st : RState Float := { centers := p.centers0, centersIncr := List.replicate nd 0.0, k := k0, kIncr := 0.0,
+                               stage := 0, accWork := 0.0, restraintFE := 0.0 }
+    some ({ s with m := { s.m with biases := s.m.biases ++ [(name, .restr idx p st)] }, modelled := true }, [])
+  | ["r.dump", name] =>
+    match findBias s name with
+    | some (.restr _ _ st) =>
+      some (s, [out ln "centers" (fsTok st.centers), out ln "k" (fTok st.k), out ln "stage" (iTok st.stage),
+                out ln "work" (fTok st.accWork), out ln "nti" (iTok st.tiOut.length),
+                out ln "ti" (fsTok (st.tiOut.flatMap fun x => [x.1, x.2]))])
+    | _ => some (s, [])
   | ["h.dump", name] =>
     match findBias s name with
     | some (.hist _ g _ data) => some (s, [out ln "nx" (isTok g.nx), out ln "data" (fsTok data)])
@@ -108,6 +143,10 @@ def modOps (s : ModSt) (ln : Nat) (t : List String) : Option (ModSt × List Stri
     if !(s.modelled && s.clockKnown) then some (s, []) else
     match findBias s name with
     | some (.harm idx k cs) => some (s, [out ln "e" (fTok (harmEnergy (getCvs s.m.cvs idx) k cs))])
+    | some (.restr idx p st) =>
+      let xs := (getCvs s.m.cvs idx).map (·.x)
+      let e := ((List.range xs.length).map fun i => rPotential p st.k st.centers i (xs.getD i 0.0)).foldl (· + ·) 0.0
+      some (s, [out ln "e" (fTok e)])
     | _ => some (s, [])
   | _ => none
 
